@@ -14,8 +14,8 @@ use std::sync::atomic::Ordering;
 use std::sync::{mpsc, Arc};
 use std::time::Duration;
 
-const EV_TIMEOUT: Duration = Duration::from_millis(2500);
-const ACK_TIMEOUT: Duration = Duration::from_millis(2000);
+const EV_TIMEOUT: Duration = Duration::from_millis(4000);
+const ACK_TIMEOUT: Duration = Duration::from_millis(3000);
 
 pub struct Val {
     hub: Arc<Hub>,
@@ -760,7 +760,7 @@ pub fn replay_case(rt: &tokio::runtime::Runtime, cfg: &[i64], labels: &[Vec<i64>
         }
         let k = l.get(1).copied().unwrap_or(0) as usize;
         // observed labels are not executed: they are observed again
-        if l[0] == 3 || l[0] == 4 {
+        if l[0] == 3 || l[0] == 4 || l[0] == 9 {
             continue;
         }
         if l[0] == 5 && r.jobs.get(k).map(|j| j.kind == 2).unwrap_or(false) && !dgated {
